@@ -496,8 +496,13 @@ func (p Sqlite) CreateContact(newContact *alertutils.Contact) error {
 				return err
 			}
 		}
+		return nil
 	}
-	return nil
+
+	// a contact with this name is already stored (contact names are unique across the table)
+	err := fmt.Errorf("CreateContact: contact name: %v already exists", newContact.ContactName)
+	log.Error(err.Error())
+	return err
 }
 
 func (p Sqlite) GetAllContactPoints(org_id int64) ([]alertutils.Contact, error) {
